@@ -299,7 +299,8 @@ def run_chain(crystal, rq, replicate=None, onward=False):
         if pre2["wf"] != "ok":
             return out
     subst = [r for r in crystal["rps"] if r["name"] == "subst"][0]["atoms"]
-    rq2 = dict(rq, rp="back", chain=True, sp_atoms=subst, rp_atoms=crystal["pat"], id0=301, fn=1, fd=1, replace_all=False, ignore=False)
+    rq2 = dict(rq, rp="back", chain=True, sp_atoms=subst, rp_atoms=crystal["pat"], id0=301, fn=1, fd=1, replace_all=False, ignore=False,
+               first=dict(rq, rp="subst"), replicate=replicate)
     if onward:
         rq2.update(rp="onward", sp_atoms=subS, rp_atoms=subCl)
     rq2["variant"] = dict(rq["variant"], hints=None)
@@ -493,7 +494,19 @@ def run(prop, tier, replay=None):
     t0 = time.time()
     if replay:
         rp = json.load(open(replay))["case"]
-        results = [(0, rp["request"], run_replace(rp["crystal"], rp["request"]))]
+        rq0 = rp["request"]
+        if "stub_variant" in rq0:
+            # a request of the stubbed model: the observed event still holds everything TLC emitted
+            o = rp["observed"]
+            req = {k: o[k] for k in ("kind", "pre", "sp", "rp", "found", "stub", "fn", "fd", "replace_all", "ignore", "rotbound") if k in o}
+            req["fine"] = o.get("fine", 1)
+            results = [(-1, rq0, run_stubbed(req, rq0["stub_variant"], sd))]
+        elif rq0.get("chain") and rq0.get("first") is not None:
+            # the later step of a chain: run the whole chain again from its first request
+            results = [(0, rq_i, ev) for rq_i, ev in run_chain(rp["crystal"], rq0["first"], replicate=rq0.get("replicate"),
+                                                                 onward=(rq0.get("rp") == "onward"))]
+        else:
+            results = [(0, rq0, run_replace(rp["crystal"], rq0))]
         crystals = [rp["crystal"]]
     else:
         crystals = generate(cfg, out)
